@@ -157,9 +157,21 @@ Definition tool_mutants (seed size maxper : string)
                    (nat_str (List.length (muts (fst ks) p)), nat_str (List.length (snd ks))))) per,
    flat_map (fun ks => map (mutant_out q p (fst ks)) (spread n (snd ks))) per).
 
-(* mini forms <seed> <size> : the header, then every top-level form with the text it prints *)
+(* mini forms <seed> <size> : the header, then every top-level form with the text it prints.
+   When the program ends by an error / unhandled exception the forms after the failing one
+   are not executed by the batch run: they are listed with an empty expected output and the
+   index of the failing form is given (otherwise the empty string).                        *)
 Definition tool_forms (seed size : string) : string * list (string * string) * prog_out :=
   let q := style_of_seed (Z_of_str seed) in
   let p := gen (Z_of_str seed) (Z.to_nat (Z_of_str size)) in
   let outs := match forms_outputs gen_fuel p with Some l => l | None => [] end in
-  (header_of q p, combine (items_src q 0 p) outs, describe_prog q p).
+  let n := List.length p in
+  let padded := (outs ++ repeat EmptyString (n - List.length outs))%list in
+  (header_of q p, combine (items_src q 0 p) padded, describe_prog q p).
+
+Definition tool_forms_failed_at (seed size : string) : string :=
+  let p := gen (Z_of_str seed) (Z.to_nat (Z_of_str size)) in
+  match forms_outputs gen_fuel p with
+  | Some l => if Nat.ltb (List.length l) (List.length p) then nat_str (List.length l - 1) else ""
+  | None => ""
+  end.
